@@ -537,6 +537,36 @@ def symbol_table_check(ctx, rule, key, oracle_map, enum_adt, enum_map):
     return dag
 
 
+def fold_bitset_parser(ctx, key, sty):
+    """BinaryCard::from_index unrolled over more tokens than there are cards and folded on texts of 0..NTOK tokens
+    (cards, repeats, junk, every card of the deck): -> (Exec, NTOK, number of texts whose result is not the union)"""
+    rep, pdb = ctx.rep, ctx.pdb
+    from ..sym import Exec, State
+    ex = Exec(pdb)
+    NTOK = 58          # more tokens than there are cards: a limit on how many tokens / cards are taken shows
+    ex.max_tokens = NTOK
+    st = State()
+    ret, _ = ex.summarise(key, [atom("text", "str")], sty, st)
+    rep.fn(key)
+    rk_ = {v_: k_ for k_, v_ in oracle.rank_symbols().items() if k_.isupper() or k_.isdigit()}
+    sk_ = {v_: k_ for k_, v_ in oracle.suit_symbols().items() if k_ in "SHDC"}
+    all52 = [rk_[r] + sk_[s_] for (r, s_) in oracle.deck_order()]
+    toks = ["A♠", "kh", "zz", "0D", "2c", "A♠", "9♧", "T♡", "J♦"] + ["zz"] * 3 + all52[::-1][:44] + ["QC", "3d"]
+    toks = toks[:NTOK]
+    bits = {oracle.card_word(r, s_): oracle.bit_for(r, s_) for (r, s_) in oracle.deck_order()}
+    nb = 0
+    for sep in (" ", "\t \n", "\u00a0", "\u2003", "\u3000 "):
+        for n in (list(range(0, 10)) + [13, 27, 52, 53, 57, 58] if sep == " " else range(0, 10)):
+            t = sep.join(toks[:n])
+            env = {"text": C(t, "str"), "$str": StrModel.handler}
+            got = cval(evaluate(pdb, ret, env))
+            exp = 0
+            for x in toks[:n]:
+                exp |= bits.get(expected_card(x), 0)
+            nb += 0 if got == exp else 1
+    return ex, NTOK, nb
+
+
 def check_C12(ctx):
     rep, pdb = ctx.rep, ctx.pdb
     premise_layout(ctx)
@@ -740,24 +770,8 @@ def check_C12(ctx):
     def bcparse():
         key, sty = ctx.method("u64", "from_index", BC)
         from ..sym import Exec, State
-        ex = Exec(pdb)
-        ex.max_tokens = 9
-        st = State()
-        ret, _ = ex.summarise(key, [atom("text", "str")], sty, st)
-        rep.fn(key)
-        toks = ["A♠", "kh", "zz", "0D", "2c", "A♠", "9♧", "T♡", "J♦"]
-        bits = {oracle.card_word(r, s_): oracle.bit_for(r, s_) for (r, s_) in oracle.deck_order()}
-        nb = 0
-        for sep in (" ", "\t \n", "\u00a0", "\u2003", "\u3000 "):
-            for n in range(0, 10):
-                t = sep.join(toks[:n])
-                env = {"text": C(t, "str"), "$str": StrModel.handler}
-                got = cval(evaluate(pdb, ret, env))
-                exp = 0
-                for x in toks[:n]:
-                    exp |= bits.get(expected_card(x), 0)
-                nb += 0 if got == exp else 1
-        rep.ob("C12.bitset-parser", "0..9 tokens", nb == 0, "BinaryCard::from_index is not the union over its tokens on %d token counts" % nb, pdb.where(key))
+        ex, NTOK, nb = fold_bitset_parser(ctx, key, sty)
+        rep.ob("C12.bitset-parser", "0..%d tokens" % NTOK, nb == 0, "BinaryCard::from_index is not the union over its tokens on %d token counts" % nb, pdb.where(key))
         # loop shape: one loop, left only when the token iterator is exhausted
         cfg = ex.cfg(key)
         nred = len([r for r in ex.reductions if r["caller"] == key])
@@ -766,7 +780,7 @@ def check_C12(ctx):
         for h in cfg.loops:
             exits = cfg.loop_exits(h)
             rep.ob("C12.bitset-parser", "single exit", len({e[0] for e in exits}) == 1, "the token loop has %d exit edges (early exit?)" % len(exits), pdb.where(key))
-        rep.assumptions.append("C12 bit-set parser: token loop unrolled to 9 tokens (inductive step identical for every token: same body, single exit)")
+        rep.assumptions.append("C12 bit-set parser: token loop unrolled to %d tokens, more than there are cards (inductive step identical for every token: same body, single exit)" % NTOK)
     ctx.guard("C12.bitset-parser", bcparse)
 
     # rendering round trip: 52 cards x 2 renderings
@@ -1049,20 +1063,8 @@ def check_C15(ctx):
     def text():
         key, sty = ctx.method("u64", "from_index", BC)
         from ..sym import Exec, State
-        ex = Exec(pdb)
-        ex.max_tokens = 9
-        ret, _ = ex.summarise(key, [atom("text", "str")], sty, State())
-        toks = ["A♠", "kh", "zz", "0D", "2c", "A♠", "9♧", "T♡", "J♦"]
-        bits = {oracle.card_word(r, s_): oracle.bit_for(r, s_) for (r, s_) in oracle.deck_order()}
-        nb = 0
-        for sep in (" ", "\t \n", "\u00a0", "\u2003", "\u3000 "):
-            for n in range(0, 10):
-                env = {"text": C(sep.join(toks[:n]), "str"), "$str": StrModel.handler}
-                exp = 0
-                for x in toks[:n]:
-                    exp |= bits.get(expected_card(x), 0)
-                nb += 0 if cval(evaluate(pdb, ret, env)) == exp else 1
-        rep.ob("C15.from_text", "0..9 tokens", nb == 0, "from_index is not the set of the distinct real cards among its tokens (%d token counts)" % nb, pdb.where(key))
+        ex, NTOK, nb = fold_bitset_parser(ctx, key, sty)
+        rep.ob("C15.from_text", "0..%d tokens" % NTOK, nb == 0, "from_index is not the set of the distinct real cards among its tokens (%d token counts)" % nb, pdb.where(key))
     ctx.guard("C15.from_text", text)
 
 
